@@ -41,10 +41,14 @@ def import_target():
             f = getattr(mod, "__file__", "") or ""
             if not os.path.abspath(f).startswith(REPO + os.sep):
                 del sys.modules[name]
+    fresh = "cvss" not in sys.modules
     import cvss  # noqa
     f = os.path.abspath(cvss.__file__)
     if not f.startswith(REPO + os.sep):
         raise HarnessError("cvss imported from %s, not from %s" % (f, REPO))
+    if fresh:
+        from . import sched
+        sched.note_import_state()        # sizes of the module-level containers before anything was used (what is a table, what is state)
     return cvss
 
 
